@@ -170,7 +170,8 @@ class MLPActorCriticPolicy[
         log_prob = action_dist.log_prob(action)
 
         try:
-            entropy = action_dist.entropy().squeeze()
+            # Independent action components: the joint entropy is the sum, like log_prob.
+            entropy = action_dist.entropy().sum().squeeze()
         except NotImplementedError:
             entropy = -log_prob.mean().squeeze()  # Fallback to negative log prob mean
 
